@@ -43,6 +43,7 @@ enum {
   OP_LINK,           /* a = index into the list of released blocks: overwrite its free-list link with a forged value */
   OP_HFILL,          /* a = heap slot, b = size: nine blocks (a full page of 8 plus one: the full page moves to the heap's full queue) */
   OP_THREAD_ALIGNED, /* a = size, b = alignment: helper thread allocates 2 aligned blocks, hands them to the model, exits (abandons) */
+  OP_HALIGNED,       /* a = size, b = alignment: mi_heap_malloc_aligned from heap slot 1 (the arena-bound heap) */
   OP_LAST      /* new codes go before this line only: replay files carry the numbers */
 };
 
@@ -74,6 +75,7 @@ static void vf_op_str(vf_op_t op, char* buf, size_t n) {
     case OP_FREE_EVERY:   snprintf(buf, n, "free_every(%ld,%ld)", op.a, op.b); break;
     case OP_HFILL:        snprintf(buf, n, "heap_fill(h%ld,%ld)", op.a, op.b); break;
     case OP_THREAD_ALIGNED: snprintf(buf, n, "thread_alloc_aligned(%ld,%ld)", op.a, op.b); break;
+    case OP_HALIGNED:     snprintf(buf, n, "heap_malloc_aligned(h1,%ld,%ld)", op.a, op.b); break;
     case OP_AHEAP_NEW:    snprintf(buf, n, "heap_new_in_arena"); break;
     case OP_THREAD_ARENA: snprintf(buf, n, "thread_arena_alloc(%ld)", op.a); break;
     case OP_THREAD_MANY:  snprintf(buf, n, "thread_alloc(%ld x%ld)", op.a, op.b); break;
@@ -156,13 +158,16 @@ static const profile_t profiles[] = {
   { .name = "P6x", .msizes = { 1024 }, .nm = 1, .fills = { 1024, 512 }, .nf = 2, .fillcount = 64, .free_every = 1, .walk = 1, .collect0 = 1, .maxlive = 200, .free_window = 2 },
   /* P7t: threads: remote free + abandoned segments + reclaim */
   { .name = "P7t", .msizes = { 8 * KiB, 100 * KiB }, .nm = 2, .remote_free = 1, .thread_alloc = 1, .collect0 = 1, .collect1 = 1, .maxlive = 6, .free_window = 4 },
+  /* P7m: blocks left behind by exited threads in arena segments (8 KiB) and in segments straight from the OS (40 MiB with a 32 MiB
+     arena reserve: too large for an arena) at the same time */
+  { .name = "P7m", .msizes = { 8 * KiB, 40 * MiB }, .nm = 2, .thread_alloc = 2, .collect1 = 1, .maxlive = 6, .free_window = 4 },
   /* P6a: arena-bound heaps and exclusive arenas (C15); start states Sa<shape> hand a guarded region to mi_manage_os_memory_ex */
   { .name = "P6a", .msizes = { 8 * KiB, 1 * MiB, 17 * MiB }, .nm = 3, .hsizes = { 8 * KiB, 1 * MiB, 17 * MiB }, .nh = 3, .arena = 1, .collect1 = 1, .maxlive = 8, .free_window = 4 },
   /* P9s: hardened builds (C17): a full page of 8 blocks, frees, and the three fault operations at every position */
-  { .name = "P9s", .msizes = { 8000, 100 }, .nm = 2, .fills = { 8000 }, .nf = 1, .faults = 1, .maxlive = 12, .free_window = 4 },
+  { .name = "P9s", .msizes = { 8000, 100 }, .nm = 2, .fills = { 8000 }, .nf = 1, .faults = 1, .collect1 = 1, .maxlive = 12, .free_window = 4 },
   /* P9g: hardened builds: a small size class whose pages start behind a gap at the beginning of their slice; start state S8 leaves
      the page's free list empty, so the next allocation takes the most recently released block (and reads its link) */
-  { .name = "P9g", .msizes = { 40 }, .nm = 1, .faults = 1, .maxlive = 120, .free_window = 2 },
+  { .name = "P9g", .msizes = { 40 }, .nm = 1, .faults = 1, .collect1 = 1, .maxlive = 120, .free_window = 2 },
   /* P8o: option sweep profile (C13): merged alphabet incl. clock ticks */
   { .name = "P8o", .msizes = { 8 * KiB, 64 * KiB, 1 * MiB, 17 * MiB }, .nm = 4, .zsizes = { 8 * KiB }, .nz = 1, .rsizes = { 100 * KiB }, .nr = 1,
     .collect0 = 1, .collect1 = 1, .ticks = { 1000 }, .nt = 1, .maxlive = 5, .free_window = 5 },
@@ -264,6 +269,16 @@ static walk_t g_walk_ab;
 static int check_abandoned(void) {
   walk_t* w = &g_walk_ab; memset(w, 0, offsetof(walk_t, stop_after)); w->stop_after = 0; w->calls = 0;
   bool ok = mi_abandoned_visit_blocks(mi_subproc_main(), -1, true, &walk_cb, w);
+  { /* the bookkeeping the walk and the adoption code steer by: the sub-process counter equals the abandoned segments that exist
+       (bits in the arenas' abandoned bitmaps + entries of the list of abandoned segments that came straight from the OS) */
+    size_t bits = 0; const size_t na = mi_atomic_load_relaxed(&mi_arena_count);
+    for (size_t a = 0; a < na; a++) { mi_arena_t* ar = mi_atomic_load_ptr_relaxed(mi_arena_t, &mi_arenas[a]); if (ar == NULL || ar->blocks_abandoned == NULL) continue; for (size_t f = 0; f < ar->field_count; f++) bits += (size_t)__builtin_popcountl(mi_atomic_load_relaxed(&ar->blocks_abandoned[f])); }
+    size_t oslist = 0; for (mi_segment_t* sg = mi_subproc_default.abandoned_os_list; sg != NULL && oslist < 100000; sg = sg->abandoned_os_next) oslist++;
+    size_t cnt = mi_atomic_load_relaxed(&mi_subproc_default.abandoned_count), oscnt = mi_atomic_load_relaxed(&mi_subproc_default.abandoned_os_list_count);
+    VF_INC(checks);
+    if (cnt != bits + oslist || oscnt != oslist) { vf_violation("abandoned-count-mismatch", "the sub-process counts %zu abandoned segments (%zu of them in the OS list), but %zu are marked in the arenas and %zu are linked in the OS list", cnt, oscnt, bits, oslist); return -1; }
+  }
+  if (vf_verbose) fprintf(stderr, "[abandoned walk] ok=%d blocks=%d abandoned_count=%zu os_list_count=%zu\n", (int)ok, w->n, mi_atomic_load_relaxed(&mi_subproc_default.abandoned_count), mi_atomic_load_relaxed(&mi_subproc_default.abandoned_os_list_count));
   VF_INC(checks);
   if (!ok) { vf_violation("abandoned-visit-false", "mi_abandoned_visit_blocks returned false although the visitor never did"); return -1; }
   walk_t* h = &g_walk; memset(h, 0, offsetof(walk_t, stop_after)); h->stop_after = 0; h->calls = 0;
@@ -667,6 +682,12 @@ static int vf_apply(vf_op_t op) {
       for (int h = 0; h < NHEAPS; h++) if (g_heaps[h] != NULL) if (check_walk_heap(h) != 0) return 1;
       return 0;
     }
+    case OP_HALIGNED: {
+      if (g_heaps[1] == NULL) return 0;
+      void* p = mi_heap_malloc_aligned(g_heaps[1], (size_t)op.a, (size_t)op.b);
+      if (p == NULL) { if (g_heap_in_arena[1]) { vf_err_count = 0; return 0; } vf_violation("null-result", "mi_heap_malloc_aligned(%ld,%ld) returned NULL", op.a, op.b); return 1; }   /* a bound heap may answer NULL when its arena cannot serve the request */
+      return vf_model_alloc(p, (size_t)op.a, (size_t)op.b, 0, 1, 0, "mi_heap_malloc_aligned") < 0;
+    }
     case OP_THREAD_ALIGNED: {
       targ_t t = { 4, (void*)(uintptr_t)op.b, (size_t)op.a, { 0, 0 } };
       run_helper(&t);
@@ -696,6 +717,7 @@ static int vf_list_ops(vf_op_t* out, int max) {
     for (int i = 0; i < P->nza; i++) PUSH(OP_ZALIGNED, P->zasizes[i][0], P->zasizes[i][1]);
     if (vf_nlive + (P->fillcount ? P->fillcount : 8) <= P->maxlive) for (int i = 0; i < P->nf; i++) PUSH(OP_FILL, P->fills[i], 0);
     if (P->thread_alloc) PUSH(OP_THREAD_ALLOC, P->msizes[0], 0);
+    if (P->thread_alloc == 2) for (int i = 1; i < P->nm; i++) PUSH(OP_THREAD_ALLOC, P->msizes[i], 0);   /* helper threads allocate every size of the profile */
   }
   /* which live indices are addressed */
   int idx[16], ni = 0;
@@ -722,6 +744,7 @@ static int vf_list_ops(vf_op_t* out, int max) {
     if (g_heaps[1] == NULL) PUSH(OP_AHEAP_NEW, 0, 0);
     else if (can_alloc) for (int i = 0; i < P->nh; i++) PUSH(OP_HMALLOC, 1, P->hsizes[i]);
     if (g_heaps[1] != NULL) PUSH(OP_HEAP_DELETE, 1, 0);
+    if (g_heaps[1] != NULL && can_alloc) { PUSH(OP_HALIGNED, 1 * MiB, 32 * MiB); PUSH(OP_HALIGNED, 64 * KiB, 4 * MiB); }
     if (can_alloc) { PUSH(OP_THREAD_ARENA, 8 * KiB, 0); PUSH(OP_THREAD_MANY, 8 * KiB, 12); }
   }
   if (P->faults) {
@@ -849,6 +872,17 @@ static int build_start(const char* s) {
       mi_page_t* pg = _mi_ptr_page(vf_live[vf_nlive - 1].p);
       if (pg->free == NULL) { if (do_op(OP_FREE, vf_nlive - 1, 0)) return 1; break; }   /* hand the last one back: it becomes the descriptor */
     }
+    return 0;
+  }
+  if (strcmp(s, "S9") == 0) {
+    /* like S5, but the first arena block holds a live segment with two live 8 KiB blocks, blocks 1..63 are taken, and the
+       next segments land in the second bitmap field (arena block index >= 64) */
+    mi_arena_id_t aid = 0;
+    if (mi_reserve_os_memory_ex((size_t)4096 * MiB, false, false, false, &aid) != 0) { fprintf(stderr, "cannot reserve arena\n"); return 2; }
+    if (do_op(OP_MALLOC, 8 * KiB, 0) || do_op(OP_MALLOC, 8 * KiB, 0)) return 1;
+    mi_memid_t memid;
+    void* blk = _mi_arena_alloc((size_t)63 * MI_ARENA_BLOCK_SIZE, false, false, aid, &memid);
+    if (blk == NULL) { fprintf(stderr, "cannot pre-claim arena blocks\n"); return 2; }
     return 0;
   }
   if (s[0] == 'S' && s[1] == 'a') {
